@@ -47,7 +47,7 @@ PROPS = {
                   "sampler's own output distribution P_alg for K<=2); particles, log-weights and evidence estimates "
                   "logged from the real Importance / ImportanceK / ChangeTarget / random_weighted / run_csmc and "
                   "validated by TLC (InferenceTrace.tla)",
-        text="Targets = 8 dyadic programs x observation sets x observed values; proposals = none, harness-defined "
+        text="Targets = 9 dyadic programs (one whose first call site is a nested function) x observation sets x observed values; proposals = none, harness-defined "
              "exact-density SampleDistributions (constant, observation-dependent, partial), and genjax.marginal of a "
              "generative function; algorithms Importance, ImportanceK k=1,2 (4 thorough). Pointwise exact clauses per "
              "particle: constraints, log-weight formula, lml in the linear domain, random_weighted returns only "
